@@ -133,3 +133,55 @@ async fn the_chronology_of_an_unreadable_element_is_empty() {
 
 /// A read bound to the past by `read.snapshot_token` is a historical read: it needs
 /// `read_history` exactly as `AS OF` does.
+#[tokio::test]
+async fn a_snapshot_token_does_not_replace_read_history() {
+    let nexus = stocked("gov_snapshot_token").await;
+    let owner = nexus.system_session();
+    let made = run_as(&owner, r#"CREATE CONCEPT ?c { TYPE "Person" NAME "Before" }"#).await;
+    assert_eq!(made.status, TopLevelStatus::Succeeded);
+    let then = nexus.store.get_space(DEFAULT_SPACE).await.unwrap().seq;
+    let renamed = run_as(&owner, r#"UPDATE "C-1" SET FIELDS {name: "After"}"#).await;
+    assert_eq!(renamed.status, TopLevelStatus::Succeeded);
+
+    let gov = nexus.governance();
+    let reader = agent(gov, "kip:principal:reader").await;
+    gov.create_grant(
+        GrantDraft {
+            space_id: DEFAULT_SPACE.into(),
+            grantee_principal: reader.clone(),
+            actions: vec!["read".into()], // no read_history
+            ..Default::default()
+        },
+        SYSTEM_PRINCIPAL,
+    )
+    .await
+    .unwrap();
+    let session = nexus.session(AuthContext::principal(&reader));
+
+    let query = r#"FIND(?c.name) WHERE { ?c CONCEPT {type: "Person"} }"#;
+    // the documented way into the past is refused ...
+    let as_of = run_as(&session, &format!("{query} AS OF SEQ {then}")).await;
+    assert_eq!(as_of.status, TopLevelStatus::Failed, "AS OF needs read_history");
+    // ... and so is SNAPSHOT, which would issue the token
+    let snapshot = run_as(&session, &format!("SNAPSHOT AS OF SEQ {then}")).await;
+    assert_eq!(snapshot.status, TopLevelStatus::Failed);
+
+    // the token spells the Space id and the sequence: anybody can write one
+    let token = hex::encode(format!("kip:snapshot:{DEFAULT_SPACE}:{then}"));
+    let request = serde_json::from_value::<Request>(json!({
+        "kip": "2.0",
+        "read": {"snapshot_token": token},
+        "operations": [{"command": query}]
+    }))
+    .unwrap();
+    let parsed = request.operations[0].parse().unwrap();
+    let bound = session
+        .execute(parsed, &request, &request.operations[0])
+        .await;
+    assert_eq!(
+        bound.status,
+        TopLevelStatus::Failed,
+        "a reader without read_history read the past through read.snapshot_token: {:?}",
+        bound.first_result()
+    );
+}
